@@ -271,6 +271,11 @@ func (core *JApiCore) checkPathSchemaPropertyUserType(typeName string) error {
 		return fmt.Errorf(`%s (%s)`, jerr.UserTypeNotFound, typeName)
 	}
 
+	if _, ok := ut.Schema.(*catalog.ExchangePseudoSchema); ok {
+		// The user type with the any or empty notation doesn't have a schema.
+		return nil
+	}
+
 	rootNode, err := ut.Schema.GetAST()
 	if err != nil {
 		return errors.New(jerr.RuntimeFailure)
